@@ -143,6 +143,10 @@ def order_rules(ctx):
                 obs.append(ob("C20.order/monotone/%s/%s" % (f.qual, fld), mono, ctx.where(f),
                               "`self.%s = %s` %s" % (fld, rs[:80], "only ever turns the flag on" if mono else "can turn the flag off again: the group state (and the runtime prelude emitted from it) depends on the order files were added"),
                               witness=None if mono else "add a template with an inline <wxs>, then one without: the WXS runtime disappears from the bundle; the other order keeps it"))
+        for n in sir.walk(f.body):
+            if n.get("k") == "binary" and n.get("op") == "|=" and n["l"].get("k") == "field" and n["l"]["name"] in bool_fields and sir.expr_str(n["l"]["base"]) in ("self", "this"):
+                n_assign += 1
+                obs.append(ob("C20.order/monotone/%s/%s" % (f.qual, n["l"]["name"]), True, ctx.where(f), "`self.%s |= %s` only ever turns the flag on" % (n["l"]["name"], sir.expr_str(n["r"])[:60])))
     if n_assign < 3:
         obs.append(ob("C20.order/floor", False, "group.rs", "only %d flag assignments found in TmplGroup mutators (floor 3)" % n_assign))
     imp = [f for f in tc.fns if f.base == "TmplGroup" and f.name == "import_group" and f.body and "group" in f.module]
